@@ -219,9 +219,12 @@ def tlc(module, cfg, pid, name, env=None, workers=None, timeout=1200, xmx="8g", 
             m = re.match(r"Error: Invariant (\S+) is violated", line)
             if m:
                 res.violated = m.group(1)
-            m = re.match(r"Error: Action property (\S+) is violated", line)
+            m = re.match(r"Error: Action property (.+?) is violated", line)
             if m:
-                res.violated = m.group(1)
+                # a named property, or "line 44, col 17 to line 44, col 40 of module TheoFrames" for one inside an instantiated module
+                w = m.group(1)
+                mm = re.match(r"line (\d+), col \d+ to line \d+, col \d+ of module (\w+)", w)
+                res.violated = ("action-property@%s:%s" % (mm.group(2), mm.group(1))) if mm else w
             if line.startswith("Error: Temporal properties were violated"):
                 res.violated = res.violated or "temporal"
             if line.startswith("Error: Deadlock reached"):
@@ -250,6 +253,31 @@ def require_ok(res, what):
     if res.error:
         raise Broken("%s: TLC failed: %s" % (what, res.error))
     return res.violated is None
+
+
+def apalache(module, cfg, pid, name, inv, length, init=None, timeout=900):
+    """apalache-mc check on spec/<module>.tla (bounded symbolic check; used for inductive-invariant steps).
+    Returns ("ok" | "violated" | "error", output text)."""
+    d = rundir(pid, name)
+    cfgp = os.path.join(d, module + ".cfg")
+    with open(cfgp, "w") as f:
+        f.write(cfg)
+    cmd = ["apalache-mc", "check", "--out-dir=" + os.path.join(d, "out"), "--config=" + cfgp, "--length=%d" % length, "--inv=" + inv]
+    if init:
+        cmd.append("--init=" + init)
+    cmd.append(os.path.join(VERIF, "spec", module + ".tla"))
+    try:
+        r = subprocess.run(cmd, cwd=d, capture_output=True, text=True, timeout=timeout)
+    except subprocess.TimeoutExpired:
+        return "error", "timeout"
+    out = r.stdout + r.stderr
+    with open(os.path.join(d, "apalache.out"), "w") as f:
+        f.write(out)
+    if "EXITCODE: OK" in out and "The outcome is: NoError" in out:
+        return "ok", out
+    if "The outcome is: Error" in out:
+        return "violated", out
+    return "error", out
 
 
 def tlc_counterexample(res, maxlen=6000):
